@@ -681,6 +681,17 @@ def c08(run):
         iters = 8000 if q else 250000
         op3 = run.path(f"mtstress_{scn}_{k}.out")
         rc, out = lib.sh([lib.BIN, "mtstress", scn, str(k), str(iters), op3], timeout=6000)
+        if rc in (101, 134, 139, -6, -11):
+            # the harness process died inside the code under test (a panic outside any catch, an abort): that is
+            # an outcome of this scenario, not trouble of the tooling
+            run.violations += 1
+            p = os.path.join(lib.WORK, "replay", f"{run.prop}-{run.violations}.json")
+            with open(p, "w") as f:
+                json.dump({"kind": "mtstress", "property": run.prop, "scenario": scn, "threads": k, "iterations": iters,
+                           "died": out[-1500:]}, f, indent=1)
+            print(f"VIOLATION property={run.prop} replay={p}")
+            print(f"  free-running {scn} with {k} threads: the process died (exit {rc}): " + out[-300:].replace("\n", " | "))
+            continue
         if rc != 0:
             raise lib.ToolError("mtstress failed: " + out[-2000:])
         r = json.loads(open(op3).readline())
